@@ -14,6 +14,11 @@
     30 SDVUPD  p n (id vflag [value])*                  -> [0 nerr (id code)*]
     31 SDVREG  p n (name dtype ctype)*                  -> [status] | [0 n (name id)*]
     32 SDVMETA p n name*                                -> [0 n] then one line per signal
+    33 V1SUB   p mask path                              -> [0 handle] | [1 status]   mask: 1 Value 2 ActuatorTarget 4 MetadataUnit
+    34 V2SUB   p buf n sig*                             -> [0 handle] | [1 status]   (Subscribe: paths; SubscribeById: ids)
+   The handle of a handler subscription is a handle of the core (operations RECV / DROP of BrokerRun.v).
+    60 SPROV   p n sig*                                 -> [0 handle] | [1 status]   (OpenProviderStream: ProvideActuationRequest)
+    61 SPUB    p h n (id vflag [value])*                -> [0 nerr (id code)*]       (PublishValuesRequest on the stream of provider h, opened by p)
 
    sig ::= 0 (signal_id absent) | 1 (oneof unset) | 2 path | 3 id ;  xflag 0 = field absent.
    The state effect of a handler is that of the core operations it issues (api_core). *)
@@ -35,7 +40,11 @@ Inductive api_op :=
 | SdvSet (p : Z) (l : list (list Z * option value))
 | SdvUpd (p : Z) (l : list (Z * option value))
 | SdvReg (p : Z) (l : list (list Z * Z * Z))
-| SdvMeta (p : Z) (names : list (list Z)).
+| SdvMeta (p : Z) (names : list (list Z))
+| V1Sub (p : Z) (mask : Z) (path : list Z)
+| V2Sub (p : Z) (buf : Z) (l : list sig_ref)
+| SProv (p : Z) (l : list sig_ref)
+| SPub (p : Z) (h : Z) (l : list (Z * option value)).
 
 (* ---------- decoding ---------- *)
 Definition dec_sig (ts : list Z) : option (sig_ref * list Z) :=
@@ -185,6 +194,10 @@ Definition decode_api (l : list Z) : option api_op :=
   | 30 :: p :: n :: r => option_map (SdvUpd p) (dec_id_values (Z.to_nat n) r)
   | 31 :: p :: n :: r => option_map (SdvReg p) (dec_regs (Z.to_nat n) r)
   | 32 :: p :: n :: r => option_map (SdvMeta p) (dec_names (Z.to_nat n) r)
+  | 33 :: p :: mask :: r => match dec_str r with Some (s, []) => Some (V1Sub p mask s) | _ => None end
+  | 34 :: p :: buf :: n :: r => option_map (V2Sub p buf) (dec_sigs (Z.to_nat n) r)
+  | 60 :: p :: n :: r => option_map (SProv p) (dec_sigs (Z.to_nat n) r)
+  | 61 :: p :: h :: n :: r => option_map (SPub p h) (dec_id_values (Z.to_nat n) r)
   | _ => None
   end.
 
@@ -204,6 +217,17 @@ Definition api_run (st : state) (a : api_op) : state * reply :=
   | SdvUpd p l => sdv_update st (get_perm st p) l
   | SdvReg p l => sdv_register st (get_perm st p) l
   | SdvMeta _ names => (st, sdv_get_metadata st names)
+  | V1Sub p mask path =>
+    let '(st', r) := v1_subscribe st (get_perm st p) path (fields_of_mask mask) in
+    (st', RStatus (match r with inl _ => OK | inr c => c end))
+  | V2Sub p buf l =>
+    let '(st', r) := v2_subscribe st (get_perm st p) l buf in
+    (st', RStatus (match r with inl _ => OK | inr c => c end))
+  | SProv p l =>
+    let '(st', r) := v2_provide st (get_perm st p) l in
+    (st', RStatus (match r with inl _ => OK | inr c => c end))
+  | SPub p _ l =>
+    let '(st', errs) := v2_stream_publish st (get_perm st p) l in (st', RErrors errs)
   end.
 
 (* the core operations a handler issues (its only effect on the state) *)
@@ -244,6 +268,19 @@ Definition api_core (st : state) (a : api_op) : list aop :=
   | SdvSet p l => [AUpdate p (fst (sdv_set_resolve (st_db st) l [] [] 0))]
   | SdvUpd p l => [AUpdate p (map (fun '(id, w) => (id, dp_upd (from_wire w))) l)]
   | SdvReg p l => sdv_reg_core (st_db st) (get_perm st p) (st_now st) (st_clock st) p l
+  | V1Sub p mask path => match v1_sub_entries st (get_perm st p) path (fields_of_mask mask) with
+                         | inl es => [ASub p es None]
+                         | inr _ => []
+                         end
+  | V2Sub p buf l => match v2_sub_entries (st_db st) l with
+                     | inl es => [ASub p es (Some buf)]
+                     | inr _ => []
+                     end
+  | SProv p l => match v2_provide_ids (st_db st) l with
+                 | Some ids => [AProvide p ids]
+                 | None => []
+                 end
+  | SPub p _ l => [AUpdate p (stream_updates l)]
   | _ => []
   end.
 
@@ -398,6 +435,12 @@ Definition enc_reply_sdv_meta (r : reply) : list (list Z) :=
 Definition api_out (st : state) (a : api_op) : list (list Z) :=
   match a with
   | SdvMeta _ _ => enc_reply_sdv_meta (snd (api_run st a))
+  | V1Sub p mask path =>
+    [match snd (v1_subscribe st (get_perm st p) path (fields_of_mask mask)) with inl h => [0; h] | inr c => [1; c] end]
+  | V2Sub p buf l =>
+    [match snd (v2_subscribe st (get_perm st p) l buf) with inl h => [0; h] | inr c => [1; c] end]
+  | SProv p l =>
+    [match snd (v2_provide st (get_perm st p) l) with inl h => [0; h] | inr c => [1; c] end]
   | _ => enc_reply (snd (api_run st a))
   end.
 
